@@ -91,18 +91,27 @@ def rend(memo, code="bAAA", curt=False, size=None, vid=None, mid=None, keepmode=
     return [bytes(g) for g in m.rend(memo, vid)], m.size
 
 
-def new_receiver(authic, keepmode="full", rxclass=None, **cfg):
+def new_receiver(authic, keepmode="full", rxclass=None, own=False, **cfg):
     """cfg: the receiver's own transmit settings (code, curt, size), which must not matter for receiving"""
     import logging
     logging.disable(logging.CRITICAL)
     keep, vids = keep_and_vids(keepmode)
     if "vid" in cfg:                 # the receiver's OWN signer id (index into the signers), used when IT sends
         cfg = dict(cfg, vid=vids[cfg["vid"]])
+    owned = None
+    if own:    # the application owns the containers: EMPTY objects handed to the constructor, keep filled afterwards
+        from collections import deque
+        owned = {"rxgs": {}, "sources": {}, "counts": {}, "vids": {}, "rxms": deque(), "keep": {}}
+        cfg = dict(cfg, **{k: v for k, v in owned.items() if k != "keep"})
+        real_keep, keep = keep, owned["keep"]
     if rxclass == "auth":            # AuthMemoer forces authic=True (and a signed code unless one is given)
         m = memoer_class(auth=True)(keep=keep, **cfg)
         assert m.authic
     else:
         m = memoer_class()(authic=authic, keep=keep, **cfg)
+    if own:
+        owned["keep"].update(real_keep)
+    m.owned = owned
     m.opened = True
     m._echoic = True
     return m
@@ -145,22 +154,28 @@ def run_rx_ops(m, ops):
 
 
 def observe_rx(m):
-    assert set(m.rxgs) == set(m.vids) == set(m.sources), "rx dict key sets differ"
-    assert set(m.counts) <= set(m.rxgs), "count without grams"
+    """When the application owns the containers (m.owned) the state is read from ITS objects."""
+    o = getattr(m, "owned", None) or {}
+    not_adopted = sorted(k for k, v in o.items() if getattr(m, k) is not v)
+    rxgs_, sources, counts, vids, rxms_, keep = (o.get("rxgs", m.rxgs), o.get("sources", m.sources), o.get("counts", m.counts),
+                                                 o.get("vids", m.vids), o.get("rxms", m.rxms), o.get("keep", m.keep))
+    if not not_adopted:
+        assert set(rxgs_) == set(vids) == set(sources), "rx dict key sets differ"
+        assert set(counts) <= set(rxgs_), "count without grams"
     rxgs = []
-    for mid, grams in m.rxgs.items():
+    for mid, grams in rxgs_.items():
         rxgs.append([mid.encode().hex(), sorted([gn, bytes(b).hex()] for gn, b in grams.items()),
-                     m.counts.get(mid), None if m.vids[mid] is None else m.vids[mid].encode().hex(),
-                     src_index(m.sources[mid])])
+                     counts.get(mid), None if vids.get(mid) is None else vids[mid].encode().hex(),
+                     src_index(sources[mid]) if mid in sources else 0])
     memo = lambda t: [t[0].encode().hex(), src_index(t[1]), None if t[2] is None else t[2].encode().hex()]
     seen, vlog = set(), []
     for e in m.vlog:
         k = tuple(e[:3]) + (e[4], e[5])
         if k not in seen:
             seen.add(k); vlog.append(e)
-    return {"rxgs": rxgs, "rxms": [memo(t) for t in m.rxms], "inbox": [memo(t) for t in m.inbox],
-            "queue": len(m.echos), "verify": vlog,
-            "keep": sorted([v.encode().hex(), k.qvk.encode().hex()] for v, k in m.keep.items())}
+    return {"rxgs": rxgs, "rxms": [memo(t) for t in rxms_], "inbox": [memo(t) for t in m.inbox],
+            "queue": len(m.echos), "verify": vlog, "not_adopted": not_adopted,
+            "keep": sorted([v.encode().hex(), k.qvk.encode().hex()] for v, k in keep.items())}
 
 
 # ---------------------------------------------------------------- Gallina (Model/MemoRx.v)
